@@ -155,6 +155,115 @@ int main()
             grid.destroyCell(c);
             fin(r ? "1" : "0");
         }
+        else if (op == "has")
+        {
+            if (!coordAt(t, i, dim, x) || i != t.size()) { std::cout << "bad-op\n"; continue; }
+            bool hs = grid.has(x);
+            Cell *c = grid.getCell(x);
+            if (hs != (c != nullptr)) { fin("has/getCell-disagree"); continue; }
+            fin(c ? "1 c=" + std::to_string(idOf.at(c)) : std::string("0"));
+        }
+        else if (op == "nb")
+        {
+            if (!coordAt(t, i, dim, x) || i != t.size()) { std::cout << "bad-op\n"; continue; }
+            G::CellArray nb;
+            const Coord &cx = x;
+            grid.neighbors(cx, nb);
+            std::string s = std::to_string(nb.size());
+            for (Cell *n : nb)
+                s += " " + std::to_string(idOf.at(n));
+            fin(s);
+        }
+        else if (op == "obs" && t.size() == 1)
+        {
+            // getContent / getCoordinates / getCells / components() / status()
+            std::vector<int> content;
+            grid.getContent(content);
+            std::sort(content.begin(), content.end());
+            std::vector<Coord *> coords;
+            grid.getCoordinates(coords);
+            std::vector<long> ids;
+            for (Coord *cp : coords)
+            {
+                Cell *c = grid.getCell(*cp);
+                ids.push_back(c ? idOf.at(c) : -1);
+            }
+            std::sort(ids.begin(), ids.end());
+            auto comps = grid.components();
+            std::vector<std::string> sizes, cs, is, ct;
+            std::vector<std::vector<long>> canon;
+            for (auto &c : comps)
+            {
+                sizes.push_back(std::to_string(c.size()));
+                std::vector<long> v;
+                for (auto *cell : c)
+                    v.push_back(idOf.at(cell));
+                std::sort(v.begin(), v.end());
+                canon.push_back(v);
+            }
+            std::sort(canon.begin(), canon.end(), [](const std::vector<long> &a, const std::vector<long> &b) {
+                if (a.size() != b.size())
+                    return a.size() > b.size();
+                return a < b;
+            });
+            std::string cstr;
+            for (size_t k = 0; k < canon.size(); ++k)
+            {
+                if (k)
+                    cstr += ";";
+                for (size_t j = 0; j < canon[k].size(); ++j)
+                    cstr += (j ? "," : "") + std::to_string(canon[k][j]);
+            }
+            for (int v : content) ct.push_back(std::to_string(v));
+            for (long v : ids) is.push_back(std::to_string(v));
+            std::ostringstream os;
+            grid.status(os);          // "<n> total cells \n<k> connected components: <sizes> \n"
+            std::istringstream is2(os.str());
+            long total = -1, ncomp = -1;
+            std::string w;
+            is2 >> total >> w >> w >> ncomp;
+            fin("content=" + joinC(ct) + " cells=" + joinC(is) + " sizes=" + joinC(sizes) + " comps=" + (canon.empty() ? std::string("-") : cstr) +
+                " status=" + std::to_string(total) + "/" + std::to_string(ncomp));
+        }
+        else if (op == "setlimit" && t.size() == 2 && vp::parseNat(t[1]) && *vp::parseNat(t[1]) >= 1 && *vp::parseNat(t[1]) <= 1000000)
+        {
+            if (pending) { fin("busy"); continue; }
+            grid.setInteriorCellNeighborLimit((unsigned)*vp::parseNat(t[1]));
+            fin("ok");
+        }
+        else if (op == "setbounds")
+        {
+            Coord l2, u2;
+            if (!coordAt(t, i, dim, l2) || !coordAt(t, i, dim, u2) || i != t.size()) { std::cout << "bad-op\n"; continue; }
+            if (pending) { fin("busy"); continue; }
+            grid.setBounds(l2, u2);
+            hasBounds = true;
+            fin("ok");
+        }
+        else if (op == "setdim" && t.size() >= 2 && vp::parseNat(t[1]) && *vp::parseNat(t[1]) >= 1 && *vp::parseNat(t[1]) <= 8)
+        {
+            unsigned nd = (unsigned)*vp::parseNat(t[1]);
+            Coord l2, u2;
+            i = 2;
+            bool wf = hasBounds ? (coordAt(t, i, nd, l2) && coordAt(t, i, nd, u2) && i == t.size()) : t.size() == 2;
+            if (!wf) { std::cout << "bad-op\n"; continue; }
+            if (pending || !grid.empty()) { fin("busy"); continue; }
+            grid.setDimension(nd);
+            dim = nd;
+            if (hasBounds)
+                grid.setBounds(l2, u2);
+            fin("ok");
+        }
+        else if (op == "clear" && t.size() == 1)
+        {
+            if (pending) { fin("busy"); continue; }
+            std::vector<Cell *> cells;
+            grid.getCells(cells);
+            for (Cell *c : cells)
+                idOf.erase(c);
+            grid.clear();
+            fin("ok");
+        }
         else
             std::cout << "bad-op\n";
     }
